@@ -53,7 +53,7 @@ out.append('### 10.3 Seeded defects written by independent agents (generated fro
 out.append('Each agent saw only the text of the property and a scratch worktree, nothing of /verif. `demo` = exit codes of the agent\'s own demonstration without / with the patch; `check` = exit code of `./check <id> quick` against the patched tree.\n')
 out.append('| property | seeded change | needs | demo | check | first signature reported |')
 out.append('|---|---|---|---|---|---|')
-for d in sorted(glob.glob(os.path.join(here, 'seeded', 'C*'))):
+for d in sorted(glob.glob(os.path.join(here, 'seeded', 'C*'))) + sorted(glob.glob(os.path.join(here, 'seeded2', 'C*'))):
     pid = os.path.basename(d)
     meta = json.load(open(os.path.join(d, 'meta.json')))
     rf = os.path.join(d, 'result_quick.json')
@@ -61,6 +61,8 @@ for d in sorted(glob.glob(os.path.join(here, 'seeded', 'C*'))):
         continue
     res = json.load(open(rf))
     sig = res['first_signatures'].split('\n')[0] if res['first_signatures'] else '-'
+    if os.sep + 'seeded2' + os.sep in d:
+        pid += ' (round 2)'
     out.append(f"| {pid} | {clip(meta['summary'], 220)} | {clip(meta['needs'], 160)} | {res['demo_without_patch_exit']}/{res['demo_with_patch_exit']} | {res['check_exit']} ({'caught' if res['caught'] else 'MISSED'}) | {clip(sig, 150)} |")
 out.append('')
 out.append('### 10.4 Mutants written by the monitor builders (mutants/*.diff)\n')
